@@ -48,6 +48,9 @@ type c02Plan struct {
 	// RestartAfter: once the round is finished every airgapped machine is stopped and started again (same folder, same
 	// password) before its share is read; before it is asked to sign, the round's operation log is replayed as documented
 	RestartAfter bool `json:"restart_after,omitempty"`
+	// BadReplay = k > 0: before the ceremony the operator of machine k-1 asks for a replay of a round the machine does not
+	// know (a mistyped identifier at the replay prompt); the machine refuses, and nothing about later rounds may change
+	BadReplay int `json:"bad_replay,omitempty"`
 }
 
 type c02Fault struct {
@@ -98,6 +101,9 @@ func c02Gen(rt *rapid.T) c02Plan {
 	p.Prior = p.N >= 3 && p.T <= p.N-1 && rapid.IntRange(0, 2).Draw(rt, "prior") == 0
 	p.Refeed = rapid.IntRange(0, 2).Draw(rt, "refeed") == 0
 	p.RestartAfter = rapid.IntRange(0, 2).Draw(rt, "restartAfter") == 0
+	if rapid.IntRange(0, 3).Draw(rt, "badReplay") == 0 {
+		p.BadReplay = 1 + rapid.IntRange(0, p.N-1).Draw(rt, "badReplayMachine")
+	}
 	return p
 }
 
@@ -160,6 +166,7 @@ type c02Obs struct {
 	DevLast      bool // the deviant announcement was the last key announcement on the board
 	PriorChecked bool
 	Refed        bool
+	BadReplayed  bool
 	Restarted    bool
 	FaultKey     string
 	FaultSeen    string // what the operator saw from the machine during the fault
@@ -174,6 +181,14 @@ func c02Execute(p c02Plan, root string) (obs c02Obs) {
 		return
 	}
 	defer w.Close()
+	if p.BadReplay > 0 {
+		m := w.Machines[(p.BadReplay-1)%p.N]
+		if err := m.M.ReplayOperationsLog("1f0c4a7e93b2d8566e1f0c4a7e93b2d8566e1f0c4a7e93b2d8566e1f0c4a7e93 "); err == nil {
+			obs.Viol = violf("replay-of-unknown-round-accepted", "machine %d replayed the operation log of a round it has never seen without an error", (p.BadReplay-1)%p.N)
+			return
+		}
+		obs.BadReplayed = true
+	}
 	priorRound := ""
 	var priorMembers []int
 	if p.Prior && p.N >= 3 && p.T <= p.N-1 {
@@ -583,6 +598,9 @@ func c02Run(t *testing.T, st *vstat.Stats, p c02Plan) *viol {
 		}
 		if obs.Restarted {
 			st.Class("machines-restarted-before-shares-were-read")
+		}
+		if obs.BadReplayed {
+			st.Class("refused-replay-of-an-unknown-round-before-the-ceremony")
 		}
 		if obs.Refed {
 			st.Class("honest:ready-and-first-operation-fed-again")
